@@ -28,8 +28,8 @@ var replayHandlers = map[string]func(c *checker, raw string) bool{}
 // replayInput re-runs one replayable input (the `input` of a disagreement or a corpus line).
 func (c *checker) replayInput(raw string) {
 	raw = strings.TrimSpace(raw)
-	if raw == "" || strings.HasPrefix(raw, "#") {
-		return
+	if raw == "" || !strings.HasPrefix(raw, "{") {
+		return // comments and lines of other tools sharing the corpus directory
 	}
 	var rc replayCase
 	if err := json.Unmarshal([]byte(raw), &rc); err != nil {
